@@ -97,6 +97,9 @@ Proof. exact bfs_perm. Qed.
 From Gen Require Flags.
 Theorem C02_depth_limit_from_source : Flags.MAX_GRAPH_DEPTH = Core.Model.MAX_GRAPH_DEPTH.
 Proof. exact max_graph_depth_from_source. Qed.
+Theorem C02_listed_layers_from_source : Z.of_nat max_layers = (Flags.loop_safety_passes Flags.MAX_GRAPH_DEPTH - 1)%Z.
+Proof. exact listed_layers_from_source. Qed.
+Print Assumptions C02_listed_layers_from_source.
 Print Assumptions C02_depth_limit_from_source.
 
 Print Assumptions C02_built_graphs_wellformed.
